@@ -197,6 +197,7 @@ var l1MaccPerms = map[string][]string{
 // NewL1 builds a node over db.  On an empty DB it runs InitChain with gen and
 // commits block 1; on a non-empty DB it is a restart (gen is ignored).
 func NewL1(db dbm.DB, gen *L1Genesis) *L1 {
+	db = wrapDB(db) // see safedb.go
 	enc := MakeEncoding()
 	n := &L1{DB: db, Enc: enc, Fault: &FaultState{Record: true}}
 	app := baseapp.NewBaseApp("sim-l1", log.NewNopLogger(), db, enc.TxConfig.TxDecoder(), baseapp.SetChainID(L1ChainID), baseapp.SetOptimisticExecution())
